@@ -101,6 +101,19 @@ def _run(sc, r, scratch, i):
     if len(set(canon)) != 1:
         witness["scripts"] = [c.decode("utf-8", "replace")[:1500] for c in canon]
         return [violation("C11:script-depends-on-schedule", "the dry-run script differs between thread-pool sizes", witness)]
+    if r.random() < 0.3:
+        # the script goes to a file (-o) that exists already and holds an older, longer plan
+        outp = os.path.join(d, "plan.sh")
+        with open(outp, "wb") as f:
+            f.write(script + b"rm -- '/old/plan/leftover-1'\nrm -- '/old/plan/leftover-2'\n")
+        dres, dargv2 = dd.run_dedupe(op, dict(cfg, dry_run=True, output=outp), report, troot, home, target=target, extra_env=amb, threads=1)
+        with open(outp, "rb") as f:
+            filed = f.read()
+        if dres.rc != 0 or re.sub(rb"\.[A-Za-z0-9]{24}", b".TEMP", filed) != canon[0]:
+            witness.update({"argv": [fsd(a) for a in dargv2], "file": filed.decode("utf-8", "replace")[:3000], "rc": dres.rc,
+                            "stderr": dres.err_text()[-500:]})
+            return [violation("C11:%s:script-file-differs-from-stdout" % op,
+                              "the script written with -o to a file that existed before differs from the one printed to stdout", witness)]
     try:
         cmds, brc, berr = dd.decode_script(script, os.path.join(d, "bash"))
     except Exception as e:
